@@ -92,7 +92,7 @@ theorem deser_blocks_balanced (cfg : Cfg) (limit : Nat) (d : Doc) (input : List 
       - (if lastBlockless (preShrink cfg limit d input).pl then 1 else 0) ∧
     ((JDD.run cfg limit d input).2.1.overflowed = false →
       Bal (JDD.run cfg limit d input).2.1 ∧ PL.outstanding (JDD.run cfg limit d input).2.1.clearAll.pl.log = 0) := by
-  refine ⟨preShrink_bal cfg limit input gok hp hb, rfl, run_net cfg limit input gok hp hb,
+  refine ⟨preShrink_bal cfg limit input gok hp hb, by rw [JDD.run_eq], run_net cfg limit input gok hp hb,
     run_clearAll_outstanding cfg limit input gok hp hb, fun ho => ?_⟩
   have h := run_bal cfg limit input gok hp hb ho
   exact ⟨h, clearAll_outstanding h⟩
